@@ -35,7 +35,6 @@ def run_tlc(*a, **kw):
     return vlib.run_tlc(*a, **kw)
 
 PROP = "C20"
-HERE = os.path.dirname(os.path.abspath(__file__))
 
 # --------------------------------------------------------------------------------------------
 # optional: extra known-finding entries (same format as known_findings.json) for dry runs of
